@@ -4,6 +4,7 @@ package verifsvc
 
 import (
 	"fmt"
+	"os"
 	"sort"
 	"strings"
 	"testing"
@@ -204,6 +205,26 @@ func TestVerifC09(t *testing.T) {
 			if b.name == "st_none" && tr != nil && strings.HasPrefix(d, "length ") && windowDiscrepancy(got, ref, asc, offset, len(got)) == "" {
 				s.Violation("c09:stream:criteria-evaluated-after-scan:window-cut-short", map[string]any{"query": desc, "discrepancy": d, "selected_rows": len(ref), "returned": len(got)})
 				continue
+			}
+			// the same defect on the row engine: every segment caps its own scan before the criteria are applied, so
+			// the answer is sorted and made of selected rows only, but leaves some of the window's rows out
+			if b.name == "st_none" && tr != nil && os.Getenv("VERIF_ROW_ENGINE") != "" && !byTag {
+				sorted, selected := true, true
+				keyOf := map[int64]int64{}
+				for _, q := range ref {
+					keyOf[q.uid] = q.key
+				}
+				for j, g := range got {
+					k, ok := keyOf[g.uid]
+					selected = selected && ok && k == g.key
+					if j > 0 && ((asc && got[j-1].key > g.key) || (!asc && got[j-1].key < g.key)) {
+						sorted = false
+					}
+				}
+				if sorted && selected {
+					s.Violation("c09:stream:criteria-evaluated-after-scan:window-has-holes", map[string]any{"query": desc, "discrepancy": d, "selected_rows": len(ref), "returned": len(got)})
+					continue
+				}
 			}
 			s.Violation(fmt.Sprintf("c09:%s:order-by-%s:%s", b.kind, kind, map[bool]string{true: "asc", false: "desc"}[asc]), map[string]any{"query": desc, "discrepancy": d, "selected_rows": len(ref), "returned": len(got)})
 		}
